@@ -105,7 +105,7 @@ class ToyMachine:
 #       "data": [{"name": str, "values": [int, ...]}],
 #       "text": [ {"label": str} | {"op": MNEMONIC, "arg": None | {"num": int, "hex": bool} | {"ref": name}, "inline": str|None} ]}
 
-def assemble(ast):
+def assemble(ast, mem_size=4096):
     """-> dict(mem={addr: word}, labels={name: addr}, max_pc=int)  (raises KeyError on an unknown name)"""
     labels = {}
     pc = 0
@@ -118,7 +118,7 @@ def assemble(ast):
             pc += 1
     n_instr = pc
     mem = {}
-    top = 4095
+    top = mem_size - 1          # "downward from the top of memory": the memory the simulation was built with
     for var in ast["data"]:
         k = len(var["values"])
         top -= k
